@@ -163,8 +163,10 @@ impl ZervSchema {
             return true;
         }
 
-        // Check for custom chrono format strings (start with %)
+        // Check for custom chrono format strings (start with %); they must be valid strftime
         pattern.starts_with('%')
+            && !chrono::format::StrftimeItems::new(pattern)
+                .any(|item| matches!(item, chrono::format::Item::Error))
     }
 }
 
